@@ -1,35 +1,35 @@
 import VaxisModel.Lemmas.ConcShutdown
 
-/-! F33 (recorded): two goroutines call `Close()` concurrently.  `vx.closed` is read and written
-without synchronisation (the race detector reports it: harness op `race dblclose`); both callers
-can pass the check before either sets the flag.  The second caller then finds `suspended` already
-set, skips the dance, closes the console under the first caller's feet and closes `chQuit`; when the
-first caller finishes it closes `chQuit` again: "panic: close of closed channel". -/
+/-! F33 (**fixed**, /repo 9e1dac2): two goroutines call `Close()` concurrently.  `vx.closed` used to
+be read and written without synchronisation; both callers could pass the check before either set
+the flag, and `chQuit` was closed twice ("panic: close of closed channel").  `Close` now tests and
+sets the flag under `closeMu`; the schedule that used to double-close (kept in the corpus as the
+harness op `dblclose` / `race dblclose`) now lets exactly one caller through.  The general
+statement — `chQuit` is closed at most once in every reachable state — is
+`Props.C10Shutdown.quit_closed_once`. -/
 namespace VaxisModel.Witness.F33
 open VaxisModel.Model.Conc VaxisModel.Lemmas.ConcShutdown
 
 def s0 : SSys := {}
 
+/-- The schedule of the old witness: both callers reach the check before anything else happens. -/
 def witness : List SLabel :=
   [.callClose, .callClose,
-   .caller 0, .caller 1,                       -- both read closed == false
-   .caller 0, .caller 0, .caller 0,            -- first: quit event, flag, suspended := true
-   .caller 1, .caller 1, .caller 1,            -- second: quit event, flag, sees suspended → skips the dance
-   .caller 1,                                  -- second: console.Close(), close(chQuit), return
+   .caller 0, .caller 1,                       -- test-and-set: the first wins, the second returns
+   .caller 0, .caller 0,                       -- first: quit event, suspended := true
    .caller 0, .caller 0, .termReply, .parser, .parser, .parser, .parser,   -- first: signal, DA1; parser exits
    .inputRecv,                                 -- the input goroutine returns
-   .caller 0, .caller 0]                       -- first: WaitClose returns, close(chQuit) again
+   .caller 0, .caller 0]                       -- first: WaitClose returns, close(chQuit)
 
-theorem reaches_double_close :
+theorem no_double_close :
     (match srun s0 witness with
-     | some s => s.panicked && s.callers == [.returned, .returned] && s.quitCloses == 2
+     | some s => s.final && !s.panicked && s.quitCloses == 1 && s.callers == [{ pc := .returned }, { pc := .returned }]
      | none => false) = true := by decide
 
-/-- With a single caller `chQuit` is closed once: the same schedule without the second caller. -/
-theorem single_close_is_fine :
-    (match srun s0 [.callClose, .caller 0, .caller 0, .caller 0, .caller 0, .caller 0, .caller 0, .termReply,
-        .parser, .parser, .parser, .parser, .inputRecv, .caller 0, .caller 0] with
-     | some s => s.final && !s.panicked && s.quitCloses == 1
+/-- The second caller can do nothing but return: after the two test-and-sets it is at `returned`. -/
+theorem second_caller_returns :
+    (match srun s0 [.callClose, .callClose, .caller 0, .caller 1] with
+     | some s => s.callers == [{ pc := .postQuit }, { pc := .returned }]
      | none => false) = true := by decide
 
 end VaxisModel.Witness.F33
